@@ -140,6 +140,31 @@ Definition meta_entry_ok (e : bytes * mval) : bool :=
   negb (blen (fst e) =? 0) && negb (existsb (bytes_eqb (fst e)) reserved_keys) &&
   match node_of (snd e) with Some _ => true | None => false end.
 
+Definition meta_ok (meta : list (bytes * mval)) : Prop :=
+  Forall (fun e => meta_entry_ok e = true) meta.
+
+(** the inputs the property quantifies over: any uint64 sequence number, any
+    int64 TTL, any expiry the time codec round-trips, any metadata map (distinct
+    keys — it is a Go map) whose keys are non-empty and not reserved and whose
+    values have a supported type (integers are int64) *)
+Definition inputs_ok (fmt_time : Z -> bytes) (parse_time : bytes -> option Z) (i : inputs) : Prop :=
+  0 <= i_seq i < two64 /\
+  - two63 <= i_ttl i < two63 /\
+  parse_time (fmt_time (i_eol i)) = Some (i_eol i) /\
+  meta_ok (i_meta i) /\
+  NoDup (map fst (i_meta i)) /\
+  (forall k n, In (k, MInt n) (i_meta i) -> - two63 <= n < two63).
+
+(** whether the public key can be recovered from record + name: it is embedded, or
+    short enough to be inlined in the peer ID *)
+Definition key_recoverable (sk pk : Type) (pub : sk -> pk) (marshal_pk : pk -> bytes)
+           (s : sk) (i : inputs) : bool :=
+  match i_embed i with Some b => b | None => need_embed pk marshal_pk (pub s) end
+  || (blen (marshal_pk (pub s)) <=? 42).
+
+(** strict DAG-CBOR map key order on entries *)
+Definition key_lt (a b : entry) : Prop := key_cmp (fst a) (fst b) = Lt.
+
 (** ---------- correspondence cases ---------- *)
 (** what the harness learnt from libp2p / the Go time package directly (not via boxo) *)
 Record oracle := mkOracle {
@@ -275,8 +300,11 @@ Definition check_case (c : case) : verdict :=
                 res_eqb (validator_validate bytes parse_pk marshal_pk verify sha ptime now nm raw) (b_vv b) &&
                 res_eqb (validate bytes verify ptime now rec' (o_pkbytes o)) (b_vkey b) in
               (* the specification, on what boxo answered *)
+              (* by name alone the key must be recoverable unless the caller asked for a
+                 record without the key (WithPublicKey(false)) and the name does not inline it *)
+              let inline := match nm with NInline _ => true | NHash _ => false end in
               let key_recoverable :=
-                b_embedded b || match nm with NInline _ => true | NHash _ => false end in
+                match i_embed i with Some false => inline | _ => true end in
               let expect (r : result unit) (recoverable : bool) :=
                 if negb recoverable then (match r with Err ENoPk | Err EPkNotFound => true | _ => false end)
                 else if future then res_eqb r (Ok tt) else res_eqb r (Err EExpired) in
@@ -289,6 +317,7 @@ Definition check_case (c : case) : verdict :=
                 list_eqb (opt_eqb cval_eqb) (b_meta b) (map (fun e => node_of (snd e)) (i_meta i)) &&
                 opt_eqb cval_eqb (b_meta_reserved b) None &&
                 (b_meta_count b =? blen (i_meta i)) &&
+                (match i_embed i with Some e => Bool.eqb (b_embedded b) e | None => b_embedded b || inline end) &&
                 o_verify2 o && o_verify1 o &&
                 expect (b_vwn b) key_recoverable &&
                 expect (match b_vv b with Err EPkNotFound => Err ENoPk | r => r end) key_recoverable &&
